@@ -92,9 +92,16 @@ static void run_vec(Ctx& c, uint64_t kN, unsigned k, int variant, uint64_t res_s
   // logical limb i of the operand lives at a + phys(i)*a_sl
   auto phys = [&](uint64_t i) { return variant == 2 ? begin + i * step : i; };
   std::vector<std::vector<int64_t>> limbs(n, std::vector<int64_t>(a_size));
+  // whole-limb structure (one case in three, not for forced data): the 1..3 least significant limbs, or one limb in the middle, are the
+  // zero polynomial; for the range variant the limbs that the range skips are then zero as well (a vector with zero padding)
+  const uint64_t zmode = forced ? 0 : r.below(6);
+  const uint64_t ztail = zmode == 1 ? 1 + r.below(3) : 0, zmid = zmode == 2 && a_size ? r.below(a_size) : a_size;
+  if (variant == 2 && (zmode == 1 || zmode == 2)) memset(a, 0, ea);
   for (uint64_t q = 0; q < n; ++q) {
     if (forced) limbs[q] = (*forced)[q % forced->size()];
     else gen_limbs(limbs[q], k, fam + (int)(q % 3 == 2 ? q : 0), r);
+    for (uint64_t i = 0; i < a_size; ++i)
+      if (i + ztail >= a_size || i == zmid) limbs[q][i] = 0;
     for (uint64_t i = 0; i < a_size; ++i) a[phys(i) * a_sl + q] = limbs[q][i];
   }
   std::vector<uint8_t> before(inplace ? R.len : A.len);
